@@ -253,7 +253,7 @@ func (e *Env) field(v Val, name string) Val {
 	}
 	if v.K == KInt && v.T != nil {
 		et := derefType(v.T)
-		if st, ok := et.Underlying().(*types.Struct); ok && !isOpaqueNamed(et) {
+		if st, ok := et.Underlying().(*types.Struct); ok {
 			for i := 0; i < st.NumFields(); i++ {
 				if st.Field(i).Name() == name {
 					return vc.load(e.st, &Addr{Kind: AField, Obj: v.S, Root: et, Path: []int{i}, T: st.Field(i).Type()})
